@@ -8,6 +8,7 @@ U(n) == S!U(n)  I(n) == S!I(n)  Bits(n) == S!Bits(n)  Bool == S!Bool  VarU(n) ==
 Grams == S!Grams  Leq(n) == S!Leq(n)  AddrInt == S!AddrInt  AddrExt == S!AddrExt  CC == S!CC  Maybe(t) == S!Maybe(t)
 Either(l, r) == S!Either(l, r)  Ref(t) == S!Ref(t)  RefCell == S!RefCell  AnyRest == S!AnyRest  Named(nm) == S!Named(nm)
 HmE(n, t) == S!HmE(n, t)  Hm(n, t) == S!Hm(n, t)  If(fl, t) == S!If(fl, t)  IfBit(fl, b, t) == S!IfBit(fl, b, t)
+Lite(t) == S!Lite(t)  HmAug(n, t, x) == S!HmAug(n, t, x)
 RefPick(fl, t0, t1) == S!RefPick(fl, t0, t1)  F(name, t) == S!F(name, t)  Alt(cn, tag, fs) == S!Alt(cn, tag, fs)
 Tag32(a, b, c, d) == S!BytesToBits(<<a, b, c, d>>)
 Tag8(a) == S!BytesToBits(<<a>>)
@@ -37,7 +38,11 @@ TheSchema == [
      Alt("trans_storage", <<0,0,0,1>>, << F("storage_ph", Named("TrStoragePhase")) >>),
      Alt("trans_tick_tock", <<0,0,1>>, << F("is_tock", Bool), F("storage_ph", Named("TrStoragePhase")), F("compute_ph", Named("TrComputePhase")), F("action", Maybe(Ref(Named("TrActionPhase")))), F("aborted", Bool), F("destroyed", Bool) >>),
      Alt("trans_split_prepare", <<0,1,0,0>>, << F("split_info", Named("SplitMergeInfo")), F("storage_ph", Maybe(Named("TrStoragePhase"))), F("compute_ph", Named("TrComputePhase")), F("action", Maybe(Ref(Named("TrActionPhase")))), F("aborted", Bool), F("destroyed", Bool) >>),
-     Alt("trans_merge_prepare", <<0,1,1,0>>, << F("split_info", Named("SplitMergeInfo")), F("storage_ph", Named("TrStoragePhase")), F("aborted", Bool) >>) >>,
+     Alt("trans_merge_prepare", <<0,1,1,0>>, << F("split_info", Named("SplitMergeInfo")), F("storage_ph", Named("TrStoragePhase")), F("aborted", Bool) >>),
+     Alt("trans_split_install", <<0,1,0,1>>, << F("split_info", Named("SplitMergeInfo")), F("prepare_transaction", Ref(Lite(Named("Transaction")))), F("installed", Bool) >>),
+     Alt("trans_merge_install", <<0,1,1,1>>, << F("split_info", Named("SplitMergeInfo")), F("prepare_transaction", Ref(Lite(Named("Transaction")))),
+          F("storage_ph", Maybe(Named("TrStoragePhase"))), F("credit_ph", Maybe(Named("TrCreditPhase"))), F("compute_ph", Named("TrComputePhase")),
+          F("action", Maybe(Ref(Named("TrActionPhase")))), F("aborted", Bool), F("destroyed", Bool) >>) >>,
   IntermediateAddress |-> << Alt("interm_addr_regular", <<0>>, << F("use_dest_bits", Leq(96)) >>), Alt("interm_addr_simple", <<1,0>>, << F("workchain_id", I(8)), F("addr_pfx", U(64)) >>), Alt("interm_addr_ext", <<1,1>>, << F("workchain_id", I(32)), F("addr_pfx", U(64)) >>) >>,
   MsgMetadata |-> << Alt("msg_metadata", <<0,0,0,0>>, << F("depth", U(32)), F("initiator_addr", AddrInt), F("initiator_lt", U(64)) >>) >>,
   ShardIdent |-> << Alt("shard_ident", <<0,0>>, << F("shard_pfx_bits", Leq(60)), F("workchain_id", I(32)), F("shard_prefix", U(64)) >>) >>,
@@ -108,6 +113,65 @@ TheSchema == [
   ValidatorSet |-> << Alt("validators", Tag8(17), << F("utime_since", U(32)), F("utime_until", U(32)), F("total", UPos(16)), F("main", One(16)),
                                                      F("list", Hm(16, Named("ValidatorDescr"))) >>),
                       Alt("validators_ext", Tag8(18), << F("utime_since", U(32)), F("utime_until", U(32)), F("total", UPos(16)), F("main", One(16)),
-                                                         F("total_weight", U(64)), F("list", HmE(16, Named("ValidatorDescr"))) >>) >>
+                                                         F("total_weight", U(64)), F("list", HmE(16, Named("ValidatorDescr"))) >>) >>,
+  \* ---- transactions
+  \* transaction$0111 account_addr:bits256 lt:uint64 prev_trans_hash:bits256 prev_trans_lt:uint64 now:uint32 outmsg_cnt:uint15
+  \*   orig_status:AccountStatus end_status:AccountStatus ^[ in_msg:(Maybe ^(Message Any)) out_msgs:(HashmapE 15 ^(Message Any)) ]
+  \*   total_fees:CurrencyCollection state_update:^(HASH_UPDATE Account) description:^TransactionDescr = Transaction;
+  TransactionR1 |-> << Alt("r1", <<>>, << F("in_msg", Maybe(Ref(Lite(Named("Message"))))), F("out_msgs", HmE(15, Ref(Lite(Named("Message"))))) >>) >>,
+  Transaction |-> << Alt("transaction", <<0,1,1,1>>, << F("account_addr", Bits(256)), F("lt", U(64)), F("prev_trans_hash", Bits(256)), F("prev_trans_lt", U(64)),
+        F("now", U(32)), F("outmsg_cnt", U(15)), F("orig_status", Named("AccountStatus")), F("end_status", Named("AccountStatus")),
+        F("r1", Ref(Named("TransactionR1"))), F("total_fees", CC), F("state_update", Ref(Named("HashUpdate"))),
+        F("description", Ref(Named("TransactionDescr"))) >>) >>,
+  \* account_descr$_ account:^Account last_trans_hash:bits256 last_trans_lt:uint64 = ShardAccount;
+  ShardAccount |-> << Alt("account_descr", <<>>, << F("account", Ref(Named("Account"))), F("last_trans_hash", Bits(256)), F("last_trans_lt", U(64)) >>) >>,
+  \* acc_trans#5 account_addr:bits256 transactions:(HashmapAug 64 ^Transaction CurrencyCollection) state_update:^(HASH_UPDATE Account) = AccountBlock;
+  AccountBlock |-> << Alt("acc_trans", <<0,1,0,1>>, << F("account_addr", Bits(256)), F("transactions", HmAug(64, Ref(Lite(Named("Transaction"))), CC)),
+        F("state_update", Ref(Named("HashUpdate"))) >>) >>,
+  \* import_fees$_ fees_collected:Grams value_imported:CurrencyCollection = ImportFees;
+  ImportFees |-> << Alt("import_fees", <<>>, << F("fees_collected", Grams), F("value_imported", CC) >>) >>,
+  \* msg_envelope_v2#5 ... emitted_lt:(Maybe uint64) metadata:(Maybe MsgMetadata) (library docstring; newer than the bundled block.tlb)
+  MsgEnvelopeAny |-> << Alt("msg_envelope", <<0, 1, 0, 0>>, << F("cur_addr", Named("IntermediateAddress")), F("next_addr", Named("IntermediateAddress")),
+                                                            F("fwd_fee_remaining", Grams), F("msg", Ref(Lite(Named("Message")))) >>),
+                        Alt("msg_envelope_v2", <<0, 1, 0, 1>>, << F("cur_addr", Named("IntermediateAddress")), F("next_addr", Named("IntermediateAddress")),
+                                                               F("fwd_fee_remaining", Grams), F("msg", Ref(Lite(Named("Message")))),
+                                                               F("emitted_lt", Maybe(U(64))), F("metadata", Maybe(Named("MsgMetadata"))) >>) >>,
+  \* InMsg (block.tlb + the deferred kinds of the library docstring)
+  InMsg |-> <<
+     Alt("msg_import_ext", <<0,0,0>>, << F("msg", Ref(Lite(Named("Message")))), F("transaction", Ref(Lite(Named("Transaction")))) >>),
+     Alt("msg_import_ihr", <<0,1,0>>, << F("msg", Ref(Lite(Named("Message")))), F("transaction", Ref(Lite(Named("Transaction")))), F("ihr_fee", Grams), F("proof_created", RefCell) >>),
+     Alt("msg_import_imm", <<0,1,1>>, << F("in_msg", Ref(Lite(Named("MsgEnvelopeAny")))), F("transaction", Ref(Lite(Named("Transaction")))), F("fwd_fee", Grams) >>),
+     Alt("msg_import_fin", <<1,0,0>>, << F("in_msg", Ref(Lite(Named("MsgEnvelopeAny")))), F("transaction", Ref(Lite(Named("Transaction")))), F("fwd_fee", Grams) >>),
+     Alt("msg_import_tr", <<1,0,1>>, << F("in_msg", Ref(Lite(Named("MsgEnvelopeAny")))), F("out_msg", Ref(Lite(Named("MsgEnvelopeAny")))), F("transit_fee", Grams) >>),
+     Alt("msg_discard_fin", <<1,1,0>>, << F("in_msg", Ref(Lite(Named("MsgEnvelopeAny")))), F("transaction_id", U(64)), F("fwd_fee", Grams) >>),
+     Alt("msg_discard_tr", <<1,1,1>>, << F("in_msg", Ref(Lite(Named("MsgEnvelopeAny")))), F("transaction_id", U(64)), F("fwd_fee", Grams), F("proof_delivered", RefCell) >>),
+     Alt("msg_import_deferred_fin", <<0,0,1,0,0>>, << F("in_msg", Ref(Lite(Named("MsgEnvelopeAny")))), F("transaction", Ref(Lite(Named("Transaction")))), F("fwd_fee", Grams) >>),
+     Alt("msg_import_deferred_tr", <<0,0,1,0,1>>, << F("in_msg", Ref(Lite(Named("MsgEnvelopeAny")))), F("out_msg", Ref(Lite(Named("MsgEnvelopeAny")))) >>) >>,
+  OutMsg |-> <<
+     Alt("msg_export_ext", <<0,0,0>>, << F("msg", Ref(Lite(Named("Message")))), F("transaction", Ref(Lite(Named("Transaction")))) >>),
+     Alt("msg_export_imm", <<0,1,0>>, << F("out_msg", Ref(Lite(Named("MsgEnvelopeAny")))), F("transaction", Ref(Lite(Named("Transaction")))), F("reimport", Ref(Lite(Named("InMsg")))) >>),
+     Alt("msg_export_new", <<0,0,1>>, << F("out_msg", Ref(Lite(Named("MsgEnvelopeAny")))), F("transaction", Ref(Lite(Named("Transaction")))) >>),
+     Alt("msg_export_tr", <<0,1,1>>, << F("out_msg", Ref(Lite(Named("MsgEnvelopeAny")))), F("imported", Ref(Lite(Named("InMsg")))) >>),
+     Alt("msg_export_deq", <<1,1,0,0>>, << F("out_msg", Ref(Lite(Named("MsgEnvelopeAny")))), F("import_block_lt", U(63)) >>),
+     Alt("msg_export_deq_short", <<1,1,0,1>>, << F("msg_env_hash", Bits(256)), F("next_workchain", I(32)), F("next_addr_pfx", U(64)), F("import_block_lt", U(64)) >>),
+     Alt("msg_export_tr_req", <<1,1,1>>, << F("out_msg", Ref(Lite(Named("MsgEnvelopeAny")))), F("imported", Ref(Lite(Named("InMsg")))) >>),
+     Alt("msg_export_deq_imm", <<1,0,0>>, << F("out_msg", Ref(Lite(Named("MsgEnvelopeAny")))), F("reimport", Ref(Lite(Named("InMsg")))) >>),
+     Alt("msg_export_new_defer", <<1,0,1,0,0>>, << F("out_msg", Ref(Lite(Named("MsgEnvelopeAny")))), F("transaction", Ref(Lite(Named("Transaction")))) >>),
+     Alt("msg_export_deferred_tr", <<1,0,1,0,1>>, << F("out_msg", Ref(Lite(Named("MsgEnvelopeAny")))), F("imported", Ref(Lite(Named("InMsg")))) >>) >>
 ]
+\* constructor labels: where the library names a constructor differently from block.tlb (data, compared by TLC);
+\* "" = the library reports the alternative as an absent object; constructors not listed carry their block.tlb name
+Labels == [
+  acst_unchanged |-> "unchanged", acst_frozen |-> "frozen", acst_deleted |-> "deleted",
+  acc_state_uninit |-> "uninitialized", acc_state_frozen |-> "frozen", acc_state_active |-> "active", acc_state_nonexist |-> "nonexist",
+  cskip_no_state |-> "no_state", cskip_bad_state |-> "bad_state", cskip_no_gas |-> "no_gas", cskip_suspended |-> "suspended",
+  tr_phase_compute_skipped |-> "skipped", tr_phase_compute_vm |-> "vm",
+  tr_phase_bounce_negfunds |-> "negfunds", tr_phase_bounce_nofunds |-> "nofunds", tr_phase_bounce_ok |-> "ok",
+  trans_ord |-> "ordinary", trans_storage |-> "storage", trans_tick_tock |-> "tick_tock", trans_split_prepare |-> "split_prepare",
+  trans_split_install |-> "split_install", trans_merge_prepare |-> "merge_prepare", trans_merge_install |-> "merge_install",
+  fsm_none |-> "", account_none |-> "",
+  \* anonymous ^[ ... ] groups of block.tlb, transcribed as auxiliary one-alternative types: no constructor of their own
+  rest |-> "*", a |-> "*", b |-> "*", r1 |-> "*"
+]
+LabelOf(c) == IF c \in DOMAIN Labels THEN Labels[c] ELSE c
 =============================================================================
